@@ -151,7 +151,9 @@ MioGetSolPosts(v) == IF WithSols(v) = {} THEN {v}
 (* The clauses of C13 over views                                            *)
 (* ------------------------------------------------------------------------ *)
 CovSet(v) == {g \in DOMAIN v.cov : v.cov[g].id # 0}
-MioSet(v) == {g \in DOMAIN v.pops : v.pops[g].covd}
+\* a MIO target is covered when its population says so (is_covered) or holds a solution with h = 1.0
+MioSet(v) == {g \in DOMAIN v.pops :
+                v.pops[g].covd \/ \E i \in DOMAIN v.pops[g].sols : v.pops[g].sols[i].h = HOne}
 
 \* the set of goals recorded as covered only grows (reset() excluded)
 CoveredGrowsP(v, w, isReset) ==
@@ -179,7 +181,7 @@ ReplaceRuleP(v, w, offered) ==
 \* MIO populations never exceed their capacity
 MIOCapP(v) == \A g \in DOMAIN v.pops : Len(v.pops[g].sols) <= v.pops[g].cap
 \* a covered target keeps exactly one solution ... and stays covered
-MIOCoveredOneP(v) == \A g \in MioSet(v) : Len(v.pops[g].sols) = 1
+MIOCoveredOneP(v) == \A g \in MioSet(v) : Len(v.pops[g].sols) = 1 /\ v.pops[g].covd
 MIOStaysP(v, w) == MioSet(v) \subseteq MioSet(w)
 
 \* the two records of "covered" kept by CoverageArchive agree
